@@ -892,6 +892,10 @@ class CeiloChunk(AbstractChunk):
         # Get ready to add the layering info to the data
         self.data.loc[:, 'layer_id'] = None
 
+        # Sub-layer ids start at 100, or above the largest group id if there are that many groups,
+        # so that they never collide with the (inherited) ids of the groups that are not split.
+        lay_id_offset = max([100] + [int(cid) + 1 for cid in self._get_cluster_ids('groups')])
+
         # Loop through every group, and look for sub-layers in it ...
         for ind in range(len(self.groups)):
 
@@ -946,7 +950,7 @@ class CeiloChunk(AbstractChunk):
             if ncomp > 1:
                 self.data.loc[self.data.loc[:, 'group_id'] ==
                               self._groups.at[ind, 'cluster_id'], 'layer_id'] = \
-                    100+10*ind+sub_layers_id
+                    lay_id_offset+10*ind+sub_layers_id
 
         # Deal with the points that have not been assigned a layer id yet
         to_fill = self.data['layer_id'].isna()
